@@ -276,6 +276,8 @@ struct Nest {
     /// hash, different type)
     owned: Vec<Interned<String>>,
     slice: Option<(Interned<[u32]>, Interned<Vec<u32>>)>,
+    /// 0-2 slice handles: the same value twice, or two different values
+    slices: Vec<Interned<[u32]>>,
 }
 
 fn sharing(n: &Nest) -> Vec<usize> {
@@ -307,6 +309,20 @@ fn sharing(n: &Nest) -> Vec<usize> {
         };
         out.push(1000 + l);
     }
+    let mut part = |base: usize, ptrs: Vec<usize>| {
+        let mut seen: Vec<usize> = Vec::new();
+        for p in ptrs {
+            let l = if let Some(i) = seen.iter().position(|x| *x == p) {
+                i
+            } else {
+                seen.push(p);
+                seen.len() - 1
+            };
+            out.push(base + l);
+        }
+    };
+    part(2000, n.slices.iter().chain(n.slice.iter().map(|s| &s.0)).map(|h| (&**h).as_ptr() as usize).collect());
+    part(3000, n.owned.iter().map(|h| (&**h) as *const String as usize).collect());
     out
 }
 
@@ -350,6 +366,15 @@ pub fn encoding_part() -> (u64, Vec<String>) {
                                 } else {
                                     None
                                 },
+                                // opt = 1: two different slices; otherwise the
+                                // same slice repeated (opt = 2: a third time
+                                // next to `slice`)
+                                slices: (0..texts)
+                                    .map(|i| {
+                                        let len = if opt == 1 { 2 + i } else { 2 };
+                                        enc_int.intern_unsized((1..=len as u32).collect::<Vec<u32>>())
+                                    })
+                                    .collect(),
                             };
                             let mut buf = Vec::new();
                             PostcardEncoder::new(&mut buf).encode(&v, &enc_plugin).unwrap();
@@ -385,6 +410,39 @@ pub fn encoding_part() -> (u64, Vec<String>) {
                                     "decoded handle of VA({first}) is not the \
                                      canonical one of the decoding interner"
                                 ));
+                            }
+                            // ... every one of them, of every type
+                            let mut canon = |what: String, same: bool| {
+                                if !same {
+                                    bad.push(format!(
+                                        "decoded handle {what} is not the canonical one of the decoding \
+                                         interner (interning an equal value gives another allocation) in {v:?}"
+                                    ));
+                                }
+                            };
+                            for h in back.list.iter().chain(back.pair.1.iter()) {
+                                let a = dec_int.intern(VA(h.0));
+                                canon(format!("{:?}", **h), std::ptr::eq(&*a, &**h));
+                            }
+                            {
+                                let a = dec_int.intern(VB(back.pair.0.0));
+                                canon(format!("{:?}", *back.pair.0), std::ptr::eq(&*a, &*back.pair.0));
+                            }
+                            for h in &back.text {
+                                let a: Interned<str> = dec_int.intern_unsized(h.to_string());
+                                canon(format!("str {:?}", &**h), std::ptr::eq(a.as_ptr(), h.as_ptr()));
+                            }
+                            for h in &back.owned {
+                                let a = dec_int.intern((**h).clone());
+                                canon(format!("String {:?}", &**h), std::ptr::eq(&*a, &**h));
+                            }
+                            for h in back.slices.iter().chain(back.slice.iter().map(|s| &s.0)) {
+                                let a: Interned<[u32]> = dec_int.intern_unsized(h.to_vec());
+                                canon(format!("[u32] {:?}", &**h), std::ptr::eq(a.as_ptr(), h.as_ptr()));
+                            }
+                            if let Some((_, o)) = &back.slice {
+                                let a = dec_int.intern((**o).clone());
+                                canon(format!("Vec<u32> {:?}", &**o), std::ptr::eq(&*a, &**o));
                             }
                             // consumed exactly the bytes written
                             if d.into_inner().position() as usize != buf.len() {
